@@ -65,6 +65,7 @@ type stats struct {
 	providerErrors      int
 	currentSlotReplaced int
 	headEvents          int
+	crossEpochLate      int
 	refetches           int
 }
 
@@ -489,6 +490,15 @@ func (j *judge) invariants(final bool) []finding {
 func (j *judge) afterHead(h *c03world.HeadRec) []finding {
 	var out []finding
 	j.st.headEvents++
+	if h.EventSlot/j.spe() != h.ClockSlot/j.spe() {
+		// A late head event of an earlier epoch: its roots are relative to that epoch, whose
+		// jobs have all passed; nothing is demanded (the other oracles still see that nothing
+		// wrong happens), and it is not the reference for the next event: vouch does not act
+		// on it, so a change it would have shown is shown again by the next event of the
+		// clock's epoch, relative to the last event that was acted on.
+		j.st.crossEpochLate++
+		return nil
+	}
 	L := j.lastHead
 	j.lastHead = h
 	if L == nil {
